@@ -21,7 +21,7 @@ MANIFEST = {
     "technique": "bounded-exhaustive differential enumeration: every input executed at both log levels and compared",
 }
 MANIFEST["text"] += " " + (
-    'Added after the seeding waves: on the named graphs all spanning traces (pairs and jumping triples) with eight non-emitting configurations incl. widths 2-3 and a tight max_dist, which is where the DEBUG-only code paths (stopped candidates inside the non-emitting search and in pruning) are reached; this found D20 and D21.')
+    'Added after the seeding waves: on the named graphs all spanning traces (pairs and jumping triples) with eight non-emitting configurations incl. widths 2-3 and a tight max_dist, which is where the DEBUG-only code paths (stopped candidates inside the non-emitting search and in pruning) are reached; this found D20 and D21. Wherever the plain match stops early, the history match / continue_with_distance / match(expand=True) is compared between the two levels as well.')
 BUDGET = {"quick": 480, "thorough": 3000}
 RULE = ("states = (input, configuration) triples of runs (default, DEBUG+stream handler, DEBUG+null handler), transitions = matcher "
         "executions, traces validated = DEBUG results compared with the default result; non-trivial = under DEBUG the lattice contains at "
@@ -34,7 +34,7 @@ CFGS = [dict(fam=f, ne=ne, avoid=True, width=None, **cut) for f in ms.FAMS for n
 
 
 def space(tier):
-    return {"configurations": CFGS, "handlers": ["StreamHandler(StringIO)", "NullHandler"], "histories": ["match", "match prefix + extend", "match + widen"]}
+    return {"configurations": CFGS, "handlers": ["StreamHandler(StringIO)", "NullHandler"], "histories": ["match", "match prefix + extend", "match + widen", "match + continue_with_distance + extend (where the match stopped early)"]}
 
 
 def cases(tier):
@@ -90,6 +90,11 @@ def observe(mp, c, trace, hist):
         elif hist == "extend":
             m.match(list(trace[:1]))
             r = m.match(list(trace), expand=True)
+        elif hist == "jump":
+            # after an early stop: jump over the gap, then continue matching the rest of the trace
+            m.match(list(trace))
+            m.continue_with_distance()
+            r = m.match(list(trace), expand=True)
         else:
             m.match(list(trace))
             r = m.increase_max_lattice_width((c.get("width") or 1) + 1)
@@ -124,6 +129,8 @@ def run_case(case):
             hists = [case["hist"]] if "hist" in case else (["match"] + (["extend"] if len(trace) > 1 else []) + (["widen"] if c.get("width") else []))
             for hist in hists:
                 _, ref = observe(mp, c, trace, hist)
+                if hist == "match" and "hist" not in case and len(ref) > 2 and isinstance(ref[1], int) and ref[1] < len(trace) - 1 and ref[0] == "list":
+                    hists.append("jump")        # the plain match stopped early: also match / continue_with_distance / extend
                 res["n"] += 1
                 outs.add(ref[:3])
                 stopped = False
